@@ -97,6 +97,11 @@ def docker_file(rng):
             elif r3 < 0.25:
                 p = " " + p + "  "
             lines.append(p)
+    if rng.random() < 0.5:
+        # order matters: an exception followed by a later pattern that matches the same entry again (last match wins)
+        sc = rng.choice([["!keep.log", "*.log"], ["*.log", "!keep.log", "keep.???"], ["!a.log", "?.log"], ["!x.txt", "*.txt"], ["*.txt", "!x.txt", "x.*"], ["!name", "nam?"], ["!build", "build*"]])
+        k = rng.randrange(len(lines) + 1)
+        lines = lines[:k] + sc + lines[k:]
     return lines
 
 
